@@ -68,6 +68,7 @@ def gen(rng, tier):
     nxt = 1
     nsteps = rng.randint(8, 40)
     settles = 0
+    kept = []
     hot = rng.randint(1, nkeys)         # most requests go to one key, so that they coalesce
 
     def pick():
@@ -86,7 +87,10 @@ def gen(rng, tier):
             lat = rng.choice([0, 0, 1, 5, 10, 10, rng.randint(0, 40)])
             out = pick_outcome(rng, w_ok=5, w_err=2, w_panic=2, w_never=1)
             cp = rng.random() < 0.12        # the inner service's call() itself panics (if this request leads)
-            ops.append("arrive %d key=%d inner=%d:%s%s" % (c, key, lat, out, " callpanic=1" if cp else ""))
+            keep = rng.random() < 0.25      # the caller holds on to the finished future and drops it later (`release`)
+            ops.append("arrive %d key=%d inner=%d:%s%s%s" % (c, key, lat, out, " callpanic=1" if cp else "", " keep=1" if keep else ""))
+            if keep:
+                kept.append(c)
             arrived.append(c)
             if cp and key not in sim.lead:
                 continue                    # it led and panicked in call(): no future, key free again
@@ -95,6 +99,10 @@ def gen(rng, tier):
             if rng.random() < 0.35:
                 ops.append("poll %d" % c)
                 sim.poll(c, now)
+        elif r < 0.10 + 0.30 and kept and rng.random() < 0.5:
+            c = rng.choice(kept)
+            kept.remove(c)
+            ops.append("release %d" % c)        # a finished future is finally dropped: must change nothing
         elif r < 0.62 and arrived:
             c = pick()
             ops.append("poll %d" % c)
@@ -159,6 +167,20 @@ def gen(rng, tier):
             ops.append("poll %d" % (base + k))
         if rng.random() < 0.4 and settles < 2:
             ops.append("settle")
+    if kept and rng.random() < 0.7:
+        # finished futures that are still held are dropped while a NEW leader of the same key is in flight
+        base = 200
+        ops.append("settle")
+        lat = rng.choice([10, 20])
+        ops.append("arrive %d key=%d inner=%d:ok" % (base + 1, hot, lat))
+        ops.append("arrive %d key=%d inner=0:ok" % (base + 2, hot))
+        ops.append("poll %d" % (base + 2))
+        for c in kept:
+            ops.append("release %d" % c)
+        ops.append("arrive %d key=%d inner=0:ok" % (base + 3, hot))
+        ops.append("poll %d" % (base + 3))
+        ops.append("adv %d" % lat)
+        ops.append("settle")
     return {"header": "coalesce", "ops": ops}
 
 
